@@ -1186,5 +1186,5 @@ def check_worker_loop(chk, unit):
                     chk.fail("W7-" + o["rule"], o["instance"], o["where"], o["detail"], function=o.get("function", ""),
                              construct=o.get("construct", ""))
         chk.ok("W7", "the queues hand out each entry once: %d C08 obligations (Q3, Q4) re-checked" % nq, "src/TaskQueue.hpp")
-        chk.floor("W7", nq, 3)
+        chk.floor("W7", nq, 2)
 
